@@ -671,10 +671,14 @@ func runC03(c *core.Ctx) {
 				if !own() {
 					continue
 				}
-				for mode := 0; mode < 3; mode++ {
+				for mode := 0; mode < 5; mode++ {
 					var text string
 					var vars map[string]interface{}
 					switch mode {
+					case 3: // (the input type gains fields through a later load, AFTER the struct was registered: one the struct has, one it has not)
+						text = "{ f(in: {" + fld + ": " + val + ", more: 1}) }"
+					case 4:
+						text, vars = "query Q($v: In) { f(in: $v) }", map[string]interface{}{"v": map[string]interface{}{fld: jsonOf[val], "extra": "x"}}
 					case 0:
 						text = "{ f(in: {" + fld + ": " + val + "}) }"
 					case 1:
@@ -695,6 +699,11 @@ func runC03(c *core.Ctx) {
 						}
 						if err := root.RegisterType(&C03In{}, "In"); err != nil {
 							panic(core.EngineError{Msg: "C03 RegisterType refused: " + err.Error()})
+						}
+						if mode >= 3 {
+							if err := root.ParseString("extend input In { more: Int = 5 extra: String late: [Int] = [1] }\n"); err != nil {
+								panic(core.EngineError{Msg: "C03 registered-input extension refused: " + err.Error()})
+							}
 						}
 						res := root.ResolveString(text, "", vars)
 						_ = ggql.WriteJSONValue(io.Discard, res, -1)
@@ -1201,6 +1210,9 @@ type C03In struct {
 	Ls  []string
 	Ll  [][]int
 	Any []*C03In
+	// (fields of the later extension: more and late have a Go field, extra has none)
+	More int
+	Late []int
 }
 
 // c03Nester is a context that makes a new context for every field it is handed down to.
